@@ -18,6 +18,13 @@ from the next offset; ``Chain.FIRST`` -> ``next . f``; ``Chain.LAST`` -> ``f . n
 own recipe with its own options.  Asserted: the loaded / dumped value equals the reference's composed function on
 the probe datum, and (logged cases) the per-location consultation sequence equals the reference's.
 
+Request pool also holds types ``normalize_type`` refuses (``ForwardRef('Missing')``, ``List[ForwardRef]``,
+``list['Missing']``, bare ``Literal`` / ``Union``, the object ``5``): they have no origin, so no exact-class entry --
+``loader(None, f)`` and the builtin None provider included, whether kept in a hash table or as a single item -- may
+ever be consulted for them; ``P.ANY`` / negations match per their definition; when no matching entry serves the
+request the facade must raise ``ProviderNotFoundError`` (three-valued: a nested retort that cannot serve is
+unspecified).
+
 A second interpreter (``defect model``) transcribes one *known* defect (see notes/C09.md); it is used only to
 (a) give violations that it explains exactly their own narrow signature and (b) let the generators avoid the
 affected class while the finding is open.  It never relaxes the oracle.
@@ -1087,7 +1094,7 @@ FIXED = [
 ]
 
 
-def _enumerate(ctx, alphabet, max_len, name, dump_every=1):
+def _enumerate(ctx, alphabet, max_len, name, dump_every=1, skip_at_max_len=()):
     """All recipes over ``alphabet`` of length 0..max_len x all requests x load (and dump for every
     ``dump_every``-th recipe); sharded by recipe index."""
     i = 0
@@ -1101,6 +1108,8 @@ def _enumerate(ctx, alphabet, max_len, name, dump_every=1):
             recipe = [list(x) for x in combo]
             dirs = ("load", "dump") if (i // ctx.nshards) % dump_every == 0 else ("load",)
             for req in REQS:
+                if n == max_len and req in skip_at_max_len:
+                    continue
                 for d in dirs:
                     case = {"dir": d, "req": req, "recipe": recipe, "logged": True,
                             "strict": bool(i & 1), "debug": i % 3}
@@ -1120,16 +1129,19 @@ def explore(ctx: runner.Ctx):
         for case in FIXED:
             ctx.label("src:fixed")
             check_case(ctx, case)
+    # thorough: the longest length leaves out List[FR] (same reference behaviour as FR) to keep the run <= ~10 min
+    skip = ("List[FR]",) if thorough else ()
+    note = f"; at the longest length without the request {skip[0]}" if skip else ""
     n_core = 4 if thorough else 3
-    if _enumerate(ctx, CORE, n_core, "exhaustive_core"):
+    if _enumerate(ctx, CORE, n_core, "exhaustive_core", skip_at_max_len=skip):
         ctx.mark_exhaustive(f"all recipes of length 0..{n_core} over the core alphabet ({len(CORE)} (predicate, "
-                            f"handler) entries) x requests {REQS} x (load, dump)" + excl)
+                            f"handler) entries) x requests {REQS} x (load, dump)" + note + excl)
     n_full = 3 if thorough else 2
-    if _enumerate(ctx, FULL, n_full, "exhaustive_full", dump_every=4 if thorough else 1):
+    if _enumerate(ctx, FULL, n_full, "exhaustive_full", dump_every=4 if thorough else 1, skip_at_max_len=skip):
         ctx.mark_exhaustive(f"all recipes of length 0..{n_full} over the full product alphabet ({len(FULL_PREDS)} "
                             f"predicates x {len(KINDS)} handler kinds = {len(FULL)} entries) x requests x "
                             + ("load (dump: every 4th recipe only, not exhaustive)" if thorough else "(load, dump)")
-                            + excl)
+                            + note + excl)
 
     def sampled(case):
         ctx.label("src:sampled")
@@ -1144,18 +1156,26 @@ RULE = ("case = (direction, request type, instance recipe of (predicate, handler
         "operations, class-level recipes (chain / diamond), retorts nested in the recipe], logged or raw providers, "
         "strict_coercion, debug_trail); short recipes enumerated exhaustively, long ones sampled. Non-trivial = some "
         "location reached by the request (top level or sub-request) is matched by >= 2 recipe entries, or its first "
-        "match declines / passes through / chains; distinct by the whole case.")
+        "match declines / passes through / chains, or the request type cannot be normalised and the recipe holds an "
+        "exact-class entry (which must never serve it); distinct by the whole case.")
 
 if __name__ == "__main__":
     raise SystemExit(runner.main(
         PROP, explore=explore, check_case=check_case, strategy=st_case(), rule=RULE,
         assumptions=[
             "predicate semantics of the alphabet are taken from the tutorial's 'Predicate system' (C10 decides them "
-            "in general); every request type used is servable by the builtin providers, whose data behaviour on "
-            "ints / M / List[int] / Optional[int] is transcribed in the reference",
+            "in general); int / M / List[int] / Optional[int] / None are servable by the builtin providers, whose data "
+            "behaviour on the probe data is transcribed in the reference; request types normalize_type refuses "
+            "(ForwardRef('Missing'), List[ForwardRef], list['Missing'], bare Literal / Union, the object 5) have no "
+            "origin: no exact-class predicate (None included) matches them, P.ANY and negations do, and if no matching "
+            "entry serves them the facade must raise ProviderNotFoundError",
+            "on a path where nothing can serve the request a chaining / delegating entry counts as declining and the "
+            "request bus scans the rest again: there only membership (consulted => predicate matches) and the first "
+            "consulted entry are asserted; a nested retort that cannot serve the request makes the outcome unspecified "
+            "(terminal vs non-terminal failure is undocumented): counted, membership still asserted",
             "how often a builtin provider asks for the same sub-loader is not specified: k>=2 repetitions of the "
             "reference consultation sequence are accepted for sub-requests (counted); the top-level request must be "
             "consulted exactly as the reference says",
-            "terminal CannotProvide, requests no provider can serve and non-located request classes are not generated",
+            "terminal CannotProvide raised by user providers and non-located request classes are not generated",
         ],
     ))
